@@ -2,6 +2,7 @@
 import ast
 import inspect
 import json
+import os
 import random
 import typing
 
@@ -33,7 +34,10 @@ def is_optional_rt(t):
     return t == RT.NONE or (t[0] == "union" and RT.NONE in t[1])
 
 
-def judge_module(res, tmod, m, traces, k, strategy, sname):
+CLI_FLAGS = {"REPLICATE": [], "OMIT": ["--omit-existing-annotations"], "IGNORE": ["--ignore-existing-annotations"]}
+
+
+def judge_module(res, tmod, m, traces, k, strategy, sname, via_cli=None):
     from monkeytype.stubs import build_module_stubs_from_traces
     from monkeytype.typing import NoOpRewriter
     import monkeytype.typing as mt
@@ -43,12 +47,24 @@ def judge_module(res, tmod, m, traces, k, strategy, sname):
     def bad(key, txt):
         keys.setdefault(f"{sname}:{key}", []).append(txt)
 
-    try:
-        stubs = build_module_stubs_from_traces(traces, k, existing_annotation_strategy=strategy, rewriter=NoOpRewriter())
-        text = stubs[m.name].render()
-    except Exception as e:
-        bad(f"stub-build-raises:{type(e).__name__}", repr(e)[:300])
-        return keys, ""
+    if via_cli:
+        from vf.props.c01 import cli
+
+        os.environ["MT_DB_PATH"] = via_cli
+        rc, text, err = cli(["-c", f"vf.mon.cfg:K{k}_NoOpRewriter", "stub", m.name] + CLI_FLAGS[sname])
+        res.count("cli_stub_runs")
+        if rc != 0:
+            bad("stub-command-fails", f"rc={rc} {err[-300:]}")
+            return keys, text
+        # the store de-duplicates and the CLI decodes: judge against what it can have seen
+        text = text.rstrip("\n")
+    else:
+        try:
+            stubs = build_module_stubs_from_traces(traces, k, existing_annotation_strategy=strategy, rewriter=NoOpRewriter())
+            text = stubs[m.name].render()
+        except Exception as e:
+            bad(f"stub-build-raises:{type(e).__name__}", repr(e)[:300])
+            return keys, ""
     se = StubEval(text, tmod)
     if se.syntax_error:
         bad("stub-does-not-parse", se.syntax_error)
@@ -218,8 +234,16 @@ def work(p):
         if not traces:
             continue
         res.shape(json.dumps([k, sorted({(f.kind, f.flavor, sum(1 for pp in f.params if pp.ann), f.ret_ann is not None) for f in m.funcs})]))
+        db = None
+        if spec.get("cli"):
+            from monkeytype.db.sqlite import SQLiteStore
+
+            db = os.path.join(d, m.name + ".sqlite3")
+            st = SQLiteStore.make_store(db)
+            st.add(traces)
+            st.conn.close()
         for sname, strat in (("REPLICATE", S.REPLICATE), ("OMIT", S.OMIT), ("IGNORE", S.IGNORE)):
-            keys, text = judge_module(res, tmod, m, traces, k, strat, sname)
+            keys, text = judge_module(res, tmod, m, traces, k, strat, sname, via_cli=db)
             for key, texts in keys.items():
                 res.violation(key, f"{m.name}: {texts[0][:300]}" + (f" (+{len(texts) - 1} more)" if len(texts) > 1 else ""),
                               {"spec": spec, "strategy": sname, "details": texts[:5], "stub": text[:2000]})
@@ -260,11 +284,12 @@ def run(ck):
         ck.merge(r)
     n = 1200 if quick else 20000
     specs = [{"name": f"vfm13_{ck.seed}_{i}", "seed": f"C13:{ck.seed}:{i}", "nfuncs": ck.rng("n", i).choice([6, 10, 14]), "k": [0, 0, 3][i % 3],
-              "real": i % 5 != 0} for i in range(n)]
+              "real": i % 5 != 0, "cli": i % 4 == 1} for i in range(n)]
     kk = core.NPROC * (2 if quick else 8)
     for r in core.pmap("vf.props.c13:work", [{"modules": specs[i::kk]} for i in range(kk)], timeout=3400):
         ck.merge(r)
     ck.need("position_cells", 8000)
+    ck.need("cli_stub_runs", 100, "CLI flag stratum did not run")
     ck.need("cells", 30, "cells of strategy x annotated? x traced? x parameter kind unseen")
     ck.need("return_kinds", 4)
     ck.need("optional_wraps_expected", 30)
